@@ -25,6 +25,7 @@ type Opts struct {
 	Zones      bool // timestamps in named / unnamed / odd zones
 	SecondsZone bool // zone offsets that are not a whole number of minutes
 	Concurrent  int  // up to 1+Concurrent goroutines append concurrently at the start of some runs
+	ConcurrentAlways bool // ... of every run, with more appends each
 	NoHugeNumbers bool // no number literals beyond float64 (the third-party durable-streams test server rejects them)
 }
 
@@ -235,7 +236,8 @@ func (d *Driver) Append(s int, o Opts) {
 	data, _ := json.Marshal(doc)
 	ev := &eb.Event{Type: typeNames[d.rnd.IntN(len(typeNames))], Data: data, Timestamp: d.timestamp(o)}
 	d.wants[id] = want{typ: ev.Type, data: data, ts: ev.Timestamp}
-	off, err := d.env.Stores[s].Append(ctx, ev)
+	var off eb.Offset
+	err := guard(func() (e error) { off, e = d.env.Stores[s].Append(ctx, ev); return })
 	if err != nil {
 		d.fail("append", s, err)
 		return
@@ -247,8 +249,24 @@ func (d *Driver) Append(s int, o Opts) {
 	d.emit(map[string]any{"e": "append", "s": sname(s), "id": id, "tok": string(off), "gt": gt, "mok": d.metricsOK(s, "append", 0, false)})
 }
 
+// guard turns a panic inside a store call into an error (a store that panics on valid input violates the contract;
+// it must not take the harness down)
+func guard(f func() error) (err error) {
+	defer func() {
+		if p := recover(); p != nil {
+			err = fmt.Errorf("panic inside the store: %v", p)
+		}
+	}()
+	return f()
+}
+
 func (d *Driver) Read(s int, from string, limit int) {
-	evs, next, err := d.env.Stores[s].Read(context.Background(), eb.Offset(from), limit)
+	var evs []*eb.StoredEvent
+	var next eb.Offset
+	err := guard(func() (e error) {
+		evs, next, e = d.env.Stores[s].Read(context.Background(), eb.Offset(from), limit)
+		return
+	})
 	if err != nil {
 		d.fail("read", s, err)
 		return
@@ -269,12 +287,17 @@ func (d *Driver) Stream(s int, from string) {
 		return
 	}
 	var evs []*eb.StoredEvent
-	for e, err := range st.ReadStream(context.Background(), eb.Offset(from)) {
-		if err != nil {
-			d.fail("stream", s, err)
-			return
+	if err := guard(func() error {
+		for e, err := range st.ReadStream(context.Background(), eb.Offset(from)) {
+			if err != nil {
+				return err
+			}
+			evs = append(evs, e)
 		}
-		evs = append(evs, e)
+		return nil
+	}); err != nil {
+		d.fail("stream", s, err)
+		return
 	}
 	pe, ok, why := d.projEvents(evs, s)
 	m := map[string]any{"e": "stream", "s": sname(s), "from": from, "evs": pe, "ok": ok, "mok": d.metricsOK(s, "read", len(evs), false)}
@@ -389,7 +412,12 @@ func (d *Driver) ConcurrentVia(s int, workers, per int, do func(id int) (string,
 	from := d.maxTok[s]
 	var order []int
 	for guard := 0; guard < 1000; guard++ {
-		got, next, err := d.env.Stores[s].Read(context.Background(), eb.Offset(from), 0)
+		var got []*eb.StoredEvent
+		var next eb.Offset
+		err := guard(func() (e error) {
+			got, next, e = d.env.Stores[s].Read(context.Background(), eb.Offset(from), 0)
+			return
+		})
 		if err != nil {
 			d.fail("read", s, err)
 			return
@@ -399,7 +427,10 @@ func (d *Driver) ConcurrentVia(s int, workers, per int, do func(id int) (string,
 		}
 		for _, e := range got {
 			var doc struct{ ID int `json:"id"` }
-			json.Unmarshal(e.Data, &doc)
+			doc.ID = -1
+			if e != nil {
+				json.Unmarshal(e.Data, &doc)
+			}
 			order = append(order, doc.ID)
 		}
 		from = string(next)
@@ -437,8 +468,12 @@ func (d *Driver) ConcurrentVia(s int, workers, per int, do func(id int) (string,
 // RunRandom performs a random operation sequence.
 func (d *Driver) RunRandom(o Opts) {
 	d.noHuge = o.NoHugeNumbers
-	if o.Concurrent > 0 && d.rnd.IntN(3) == 0 {
-		d.ConcurrentAppends(d.rnd.IntN(len(d.env.Stores)), 2+d.rnd.IntN(o.Concurrent), 1+d.rnd.IntN(6), o)
+	if o.Concurrent > 0 && (o.ConcurrentAlways || d.rnd.IntN(3) == 0) {
+		per := 1 + d.rnd.IntN(6)
+		if o.ConcurrentAlways {
+			per = 6 + d.rnd.IntN(10)
+		}
+		d.ConcurrentAppends(d.rnd.IntN(len(d.env.Stores)), 2+d.rnd.IntN(o.Concurrent), per, o)
 	}
 	subs := []string{"sub-a", "sub-b", "под писка"}
 	for i := 0; i < o.Ops; i++ {
@@ -466,7 +501,12 @@ func (d *Driver) RunRandom(o Opts) {
 		for guard := 0; guard < 400; guard++ {
 			n0 := len(d.lines)
 			lim := o.Limits[d.rnd.IntN(len(o.Limits))]
-			evs, next, err := d.env.Stores[s].Read(context.Background(), eb.Offset(from), lim)
+			var evs []*eb.StoredEvent
+			var next eb.Offset
+			err := guard(func() (e error) {
+				evs, next, e = d.env.Stores[s].Read(context.Background(), eb.Offset(from), lim)
+				return
+			})
 			if err != nil {
 				d.fail("read", s, err)
 				break
